@@ -29,6 +29,8 @@ ErrnoOf(k) == CASE k = "timeout" -> 0 [] k = "transmission" -> -1 [] k = "protoc
 \* attempts (clf.exchange calls) the code spends on one command
 Budget(proto, cc, nRetry) ==
     CASE proto = "T2" /\ cc = "ssel2" -> 1          \* tt2.py:557 retries=0, a time-out IS the answer (passive ack)
+      [] cc = "act" -> 1                            \* activation exchanges (RATS tt4.py:535, ATTRIB tt4.py:577, the probes
+                                                    \* of tt2_nxp.py:740,754): clf.exchange() called once, never repeated
       [] proto = "T4" /\ cc = "P" -> 1              \* tt4.py:82-86, 357-362 presence check: one R(NAK), no retry
       [] proto = "T4" -> nRetry + 1                 \* tt4.py: i <= n_retry
       [] OTHER -> 3
